@@ -76,7 +76,10 @@ ASSUMPTIONS = [
     'greenthread switches are modelled only by raise-and-catch',
 ]
 
-KINDS = ('plain', 'args', 'chained', 'retb', 'base')
+# 'group' / 'basegroup': PEP 654 exception groups (one exception *object*
+# like any other: identity, traceback and the predicate's verdict concern the
+# group, never its members)
+KINDS = ('plain', 'args', 'chained', 'retb', 'base', 'group', 'basegroup')
 
 
 # --------------------------------------------------------------------------
@@ -146,6 +149,16 @@ def _l3(kind):
         raise e
     if kind == 'base':
         e = Interrupt('stop')
+        LAST.append(e)
+        raise e
+    if kind == 'group':
+        e = ExceptionGroup('several', [OtherError('m1'), OtherError('m2')])
+        LAST.append(e)
+        raise e
+    if kind == 'basegroup':
+        e = BaseExceptionGroup('mixed', [
+            NewInterrupt('i'),
+            ExceptionGroup('nested', [OtherError('m3')])])
         LAST.append(e)
         raise e
     if kind == 'chained':
@@ -396,6 +409,9 @@ def _make_inner(env, variant, exc_id):
             return NeedsArgs('inner', 0)
         if cls is InnerNeedsArgs:
             return InnerNeedsArgs('inner', key=0)
+        if issubclass(cls, BaseExceptionGroup):
+            return cls('inner of the same class',
+                       list(env.excs[exc_id].exceptions))
         return cls('inner of the same class')
     return InnerError('inner')
 
@@ -408,6 +424,9 @@ def _make_new(env, variant):
         cls = type(env.excs['X'])
         if cls is NeedsArgs:
             return NeedsArgs('new', 1)
+        if issubclass(cls, BaseExceptionGroup):
+            return cls('new of the same class',
+                       list(env.excs['X'].exceptions))
         return cls('new of the same class')
     return NewError('new')
 
@@ -439,7 +458,7 @@ def _run_body(env, ctx, body, path, exc_id):
             try:
                 raise _make_inner(env, op[1], exc_id)
             except (InnerError, PlainError, NeedsArgs, Interrupt,
-                    InnerNeedsArgs):
+                    InnerNeedsArgs, BaseExceptionGroup):
                 pass
         elif k == 'set':
             ctx.reraise = bool(op[1])
@@ -485,6 +504,39 @@ def _run_body(env, ctx, body, path, exc_id):
             raise core.HarnessError('unknown op %r' % (op,))
 
 
+REUSES = ('off', 'body_raised', 'capture_only')
+
+
+class PriorError(Exception):
+    """the exception of an earlier, finished use of the same instance"""
+
+
+def _used_before(env, how, log, reraise0):
+    """An instance of save_and_reraise_exception that has already been
+    through one episode with another exception, in which force_reraise was
+    never due (so nothing of that episode may show in the next one); the
+    public reraise attribute is then set to what the case asks for."""
+    ctx = env.excutils.save_and_reraise_exception(reraise=False, logger=log)
+    try:
+        raise PriorError('earlier episode')
+    except PriorError:
+        if how == 'off':
+            with ctx:
+                pass
+        elif how == 'body_raised':
+            try:
+                with ctx:
+                    raise InnerError('earlier body failed')
+            except InnerError:
+                pass
+        elif how == 'capture_only':
+            ctx.capture()
+        else:
+            raise core.HarnessError('reuse %r' % (how,))
+    ctx.reraise = bool(reraise0)
+    return ctx
+
+
 def _handler(env, case):
     try:
         _l1(env.kind)
@@ -494,8 +546,15 @@ def _handler(env, case):
         env.register('X', e)
         log = RecLogger()
         env.logs[()] = log
-        with env.excutils.save_and_reraise_exception(
-                reraise=bool(case['reraise0']), logger=log) as ctx:
+        if case.get('reuse'):
+            mgr = _used_before(env, case['reuse'], log, case['reraise0'])
+            if log.errors():
+                env.extra.append('the earlier episode logged %r'
+                                 % (log.errors(),))
+        else:
+            mgr = env.excutils.save_and_reraise_exception(
+                reraise=bool(case['reraise0']), logger=log)
+        with mgr as ctx:
             if ctx is None or not hasattr(ctx, 'reraise'):
                 env.extra.append('__enter__ returned %r' % (ctx,))
             _run_body(env, ctx, case['body'], (), 'X')
@@ -665,6 +724,9 @@ def classify(case, preds):
         cls.append('logged')
     if case.get('post'):
         cls.append('post_force')
+    if case.get('reuse'):
+        cls.append('reuse=' + case['reuse'])
+        nontrivial = True
     return nontrivial, cls
 
 
@@ -729,6 +791,27 @@ def enum_programs(col, sizes, depth, shard, nshards, full, stride=1,
         col.exhaustive.setdefault(sub, True)
 
 
+def reuse_programs(col, sizes, depth):
+    """The same programs run on an instance that has been used before
+    (REUSES): a finished episode must leave nothing behind."""
+    sub = 'sare/reuse'
+    route = _fg_still_fails()
+    idx = -1
+    for n in sizes:
+        bodies = _bodies(n, depth) if n else ((), (('nop',),))
+        for body in bodies:
+            lbody = _listify(body)
+            for kind in KINDS:
+                for r0 in (True, False):
+                    idx += 1
+                    case = {'kind': kind, 'reraise0': r0, 'body': lbody,
+                            'post': False, 'reuse': REUSES[idx % len(REUSES)]}
+                    top = check_case(col, case, sub, route)
+                    if top == 'none':
+                        check_case(col, dict(case, post=True), sub, route)
+    col.exhaustive.setdefault(sub, False)
+
+
 _R_SIMPLE = (['nop'], ['raise_catch', 'inner'], ['raise_catch', 'samecls'],
              ['set', True], ['set', False], ['strip_tb'], ['capture'],
              ['capture'])
@@ -767,8 +850,11 @@ def decode_program(codes):
 
     kind = KINDS[nxt() % len(KINDS)]
     flags = nxt()
-    return {'kind': kind, 'reraise0': bool(flags & 1),
+    case = {'kind': kind, 'reraise0': bool(flags & 1),
             'post': bool(flags & 2), 'body': body(0)}
+    if flags & 4 and flags & 8:
+        case['reuse'] = REUSES[(flags >> 4) % len(REUSES)]
+    return case
 
 
 def hyp_programs(col, seed, max_examples):
@@ -995,7 +1081,8 @@ def _default_logger_case(excutils, h, case, sub):
                             case)
         name = {'plain': 'PlainError', 'args': 'NeedsArgs',
                 'chained': 'PlainError', 'retb': 'PlainError',
-                'base': 'Interrupt'}[case['kind']]
+                'base': 'Interrupt', 'group': 'ExceptionGroup',
+                'basegroup': 'BaseExceptionGroup'}[case['kind']]
         if name not in text:
             raise Violation(sub, 'log text does not mention the dropped %s: '
                             '%s' % (name, text[:200]), case)
@@ -1019,7 +1106,8 @@ PRED_RESULTS = (
 _CONST = {'one': 1, 'str': 'yes', 'list': [0], 'zero': 0, 'empty': '',
           'None': None, 'emptylist': []}
 _KIND_CLASS = {'plain': PlainError, 'args': NeedsArgs, 'chained': PlainError,
-               'retb': PlainError, 'base': Interrupt}
+               'retb': PlainError, 'base': Interrupt,
+               'group': ExceptionGroup, 'basegroup': BaseExceptionGroup}
 
 
 def _pred_truth(spec, kind):
@@ -1397,7 +1485,7 @@ def rpoe_case(col, case, scratch, sub='remove_path'):
             (removes and removes[0][2] is not None
              and raised is not removes[0][2]):
         bad('%r propagated instead of the original' % (raised,))
-    if body == 'base':
+    if body in ('base', 'basegroup'):
         # BaseException that is not an Exception: removal is unspecified
         if col is not None:
             col.unspec(sub, 'BaseException outside Exception: removal not '
@@ -1599,6 +1687,9 @@ def tasks(tier, seed):
         out.append(Task('sare/enum', enum_programs,
                         sizes=tuple(range(0, full + 1)), depth=depth,
                         shard=s, nshards=shards, full=True))
+    out.append(Task('sare/reuse', reuse_programs,
+                    sizes=(0, 1, 2) if tier == 'quick' else (0, 1, 2, 3),
+                    depth=depth))
     for s in range(shards):
         out.append(Task('sare/enum-rotating', enum_programs, sizes=(rot,),
                         depth=depth, shard=s, nshards=shards, full=False,
